@@ -33,7 +33,7 @@ RUNS = {
     "C16": {"quick": 480, "thorough": 30000},
     "C17": {"quick": 480, "thorough": 30000},
     "C19": {"quick": 480, "thorough": 30000},
-    "C18": {"quick": 488, "thorough": 9760},
+    "C18": {"quick": 512, "thorough": 10240},
     "C20": {"quick": 160, "thorough": 9600},
     "C05": {"quick": 480, "thorough": 30000},
     "C06": {"quick": 480, "thorough": 30000},
